@@ -191,8 +191,14 @@ theorem no_stale_after_ref_delete (env : Env) (lt : Node → Node → Prop) (hw 
   have := delRef_ci h hw.scoping hw.noCatch (refEdit_withRef env r none) hex
   ⟨this, this.good⟩
 
-/-- **T4 – …a formula edit** (`cells.formula = f`; `clear_obj`) – for ANY new definition `env'`
-of the cells (formula, cache flag, `allow_none`). -/
+/-- **T4 – …a formula or cache-flag edit** (`cells.formula = f`, `cells.is_cached = b`: the two
+edits of one cells' definition that modelx ACCOMPANIES with `clear_obj(cells)`, `St.setFormula`).
+The theorem is about the clearing, not about the edit: whatever changes in the definition of cells
+`c` (`CellEdit` lets formula, flag and `allow_none` of `c` differ), if `clear_obj(c)` is performed
+the invariant holds for the new definitions.  It does NOT say that modelx performs that clearing
+for every such change: the `allow_none` setter (`base.py`) clears nothing – an `allow_none` edit is
+not among C02's edits and is not covered (a held `None` stays where a model that saw only the edit
+raises `NoneReturnedError`); histories do not change `allow_none` after an evaluation. -/
 theorem no_stale_after_formula_edit (env env' : Env) (lt : Node → Node → Prop) (s : St)
     (h : CI env lt s) (c : CellId) (hed : CellEdit env env' c) :
     CI env' lt (s.setFormula c) ∧ Good env' (inpOf (s.setFormula c)) (s.setFormula c) :=
@@ -217,8 +223,11 @@ theorem no_stale_after_clear (env : Env) (lt : Node → Node → Prop) (s : St) 
 /-! ### structural edits: the namespace of a set of cells changes -/
 
 /-- **T6 – a SET of cells is redefined at once, and the clearing is the namespace notification**
-(the batch generalisation of T4, whose clearing is `clear_obj`).  `env'` differs from `env` at the
-cells in `C` only – there arbitrarily: formula, cache flag, `allow_none`, existence (`BatchEdit`);
+(the batch generalisation of T4, whose clearing is `clear_obj`).  Like T4 it is a statement about
+the clearing: IF the cells in `L` are notified, the invariant holds for any `env'` that differs from
+`env` at the cells in `C` only – there arbitrarily: formula, cache flag, `allow_none`, existence
+(`BatchEdit`; which edits modelx accompanies with which notification is the tie, and an
+`allow_none` edit is accompanied by none);
 modelx notifies the cells in `L` (`St.notifyAll`: `on_namespace_change` of each – a cached cells
 drops its computed values with everything computed from them and KEEPS its inputs; an uncached
 cells drops everything computed through it); every redefined cells is notified or has no node in
@@ -336,7 +345,9 @@ example : resolve (fun x => if x = "f" then some (.cell 7) else if x = "g" then 
 
 /-- **Every reachable quiescent state has the certificate invariant**: after any finite
 interleaving of evaluations (successful, failed), value edits, reference edits (change, create,
-delete), formula / flag edits and deletions / creations of cells, starting from the empty model. -/
+delete), formula / flag edits, deletions / creations of cells, changes of the recursion limit and
+administrative calls (thirteen operations: the union of this property's and C05/C08/C17's edit
+languages), starting from the empty model. -/
 theorem reachable_ci (lt : Node → Node → Prop) (ho : StrictOrder lt) (env0 : Env) (hw0 : WF env0 lt)
     (ops : List Op) (hadm : Admissible lt (env0, {}) ops) :
     CI (run (env0, {}) ops).1 lt (run (env0, {}) ops).2 ∧ WF (run (env0, {}) ops).1 lt :=
